@@ -18,7 +18,8 @@ structure Slice where
 def slices : List (String × Slice) :=
   [ ("overlay", { σ := Stack, init := .root [], step := stepOverlay }),
     ("views", { σ := Store Val, init := [], step := stepViews }),
-    ("staking", { σ := Stk.StkState, init := Stk.StkState.init, step := Stk.stepStaking }),
+    ("staking", { σ := Stk.StkApps, init := {}, step := Stk.stepStaking }),
+    ("staking-det", { σ := Stk.StkApps, init := {}, step := Stk.stepStaking }),
     ("route", { σ := RouteDrv.RouteState, init := {}, step := RouteDrv.stepRoute }),
     ("addr", { σ := Unit, init := (), step := stepAddr }),
     ("bank", { σ := BankSt, init := {}, step := stepBank }),
